@@ -1,0 +1,16 @@
+//go:build verif
+
+// Contracts for the verification harness in /verif (comment-only; this file
+// adds no executable code). See /verif/DESIGN.md.
+
+package raftlog
+
+// C18/C09: raftRepr relates the stored (protobuf) form of a raft log entry to
+// the raft.Log it stands for: index, term, type, extensions and append time
+// intact, data the same bytes. Every writer establishes it, every reader
+// inverts it (contracts in internal/raftstore, the main package and here).
+//@ pred raftRepr(p *pb.RaftLog, l *raft.Log) = p.Index == l.Index && p.Term == l.Term && p.Type == l.Type && sameslice(p.Data, l.Data) && sameslice(p.Extensions, l.Extensions) && p.AppendedAt.AsTime() == l.AppendedAt
+
+//@ func FromBytes
+//@   ensures nonnil: result1 == nil ==> result0 != nil
+//@   assert@return #2 : decoded: b[0] == 'p' ==> raftRepr(addrof(p), addrof(l))
